@@ -39,7 +39,7 @@ Lemma chunk_entries_if_concat : forall (cs : list (list A)) buf,
 Proof.
   induction cs as [|c r IH]; intros buf.
   - simpl. rewrite app_nil_r. destruct buf; simpl; [reflexivity|]. rewrite app_nil_r. reflexivity.
-  - cbn [chunk_entries_if concat].
+  - cbn [chunk_entries_if concat]. unfold m_ce_cond.
     destruct (n <=? length (buf ++ c))%nat.
     + cbn [concat]. rewrite IH. rewrite app_assoc. rewrite firstn_skipn. rewrite app_assoc. reflexivity.
     + rewrite IH. rewrite app_assoc. reflexivity.
@@ -52,8 +52,8 @@ Lemma drain_spec : forall fuel (total : list A), (length total <= fuel)%nat ->
 Proof.
   induction fuel as [|f IH]; intros total Hlen.
   - destruct total; [|simpl in Hlen; lia].
-    exists [], []. simpl. destruct (Nat.leb_spec n 0); [lia|]. repeat split; auto; simpl; lia.
-  - cbn [drain]. destruct (Nat.leb_spec n (length total)) as [Hge|Hlt].
+    exists [], []. simpl. unfold m_ce_cond. destruct (Nat.leb_spec n 0); [lia|]. repeat split; auto; simpl; lia.
+  - cbn [drain]. unfold m_ce_cond. destruct (Nat.leb_spec n (length total)) as [Hge|Hlt].
     + destruct (IH (skipn n total)) as (o & rest & E & Hc & Hf & Hr).
       { rewrite skipn_length. lia. }
       rewrite E. exists (firstn n total :: o), rest. repeat split.
@@ -100,10 +100,10 @@ Lemma drain_once fuel (total : list A) : (length total <= fuel)%nat -> (length t
   drain fuel n total = if (n <=? length total)%nat then Some ([firstn n total], skipn n total) else Some ([], total).
 Proof.
   intros Hf Hlt. destruct fuel as [|f].
-  - destruct total; [|simpl in Hf; lia]. simpl. destruct (Nat.leb_spec n 0); [lia|reflexivity].
-  - cbn [drain]. destruct (Nat.leb_spec n (length total)) as [Hge|Hl]; [|reflexivity].
+  - destruct total; [|simpl in Hf; lia]. simpl. unfold m_ce_cond. destruct (Nat.leb_spec n 0); [lia|reflexivity].
+  - cbn [drain]. unfold m_ce_cond. destruct (Nat.leb_spec n (length total)) as [Hge|Hl]; [|reflexivity].
     assert (Hs : (length (skipn n total) < n)%nat) by (rewrite skipn_length; lia).
-    destruct f as [|f']; cbn [drain];
+    destruct f as [|f']; cbn [drain]; unfold m_ce_cond;
       (destruct (Nat.leb_spec n (length (skipn n total))); [lia|reflexivity]).
 Qed.
 
@@ -112,7 +112,7 @@ Lemma if_equals_while : forall (cs : list (list A)) buf, no_double (length buf) 
 Proof.
   induction cs as [|c r IH]; intros buf Hnd; [reflexivity|].
   cbn [no_double] in Hnd. destruct Hnd as [Hlt Hrest].
-  cbn [chunk_entries_while chunk_entries_if].
+  cbn [chunk_entries_while chunk_entries_if]. unfold m_ce_cond.
   rewrite <- app_length in Hlt, Hrest.
   rewrite drain_once by (try apply le_n; exact Hlt).
   destruct (Nat.leb_spec n (length (buf ++ c))) as [Hge|Hl].
@@ -132,7 +132,7 @@ Lemma lines_drain_spec : forall fuel (chunk cur : list A) remaining,
     /\ len cur' + rem' = N /\ len chunk' < rem' /\ 1 <= rem'.
 Proof.
   induction fuel as [|f IH]; intros chunk cur remaining Hf Hinv Hrem; [lia|].
-  cbn [lines_drain]. destruct (Z.geb_spec (len chunk) remaining) as [Hge|Hlt].
+  cbn [lines_drain]. unfold m_cl_cond. destruct (Z.geb_spec (len chunk) remaining) as [Hge|Hlt].
   - destruct (IH (skipn (Z.to_nat remaining) chunk) [] N) as (o & cur' & chunk' & rem' & E & Hc & Hfo & Hi & Hl & Hr).
     { rewrite skipn_length. unfold len in *. lia. }
     { rewrite len_nil. lia. }
@@ -154,7 +154,7 @@ Proof.
   induction cs as [|c r IH]; intros cur remaining Hinv Hrem.
   - exists [cur]. split; [reflexivity|]. simpl. rewrite !app_nil_r. split; [reflexivity|].
     pose proof (len_nonneg cur). lia.
-  - cbn [chunk_lines_go].
+  - cbn [chunk_lines_go]. unfold m_cl_after.
     destruct (lines_drain_spec (S (length c)) c cur remaining) as (o & cur' & c' & rem' & E & Hc & Hfo & Hi & Hl & Hr);
       [lia|exact Hinv|exact Hrem|].
     rewrite E.
